@@ -11,7 +11,10 @@ to it).  Correspondence: the Lean model's `(digest length, preimage)` (`id` op) 
 identifier; `script.gate` op against the builder's decision."""
 import copy
 import hashlib
+import logging
+import os
 import random
+import traceback
 from dataclasses import dataclass
 from typing import Dict, List
 
@@ -39,9 +42,10 @@ from ref import bech32_ref
 from ref import cbor_ref as R
 from ref import ledger_ref as L
 from vlib import scenario as S
-from vlib.core import Infra
+from vlib.core import REPO, Infra
 
 NET = Network.TESTNET
+logging.getLogger("PyCardano").setLevel(logging.CRITICAL)   # the builder dumps its state on every refused build
 
 # Speed only: pycardano's `validate()` recomputes `typing.get_type_hints(cls)` for every object on every `to_cbor()`
 # (about 90 % of the run time of this check).  The function is pure in the (static) class, so it is memoised for this
@@ -814,7 +818,7 @@ def check_asset_case(ctx, case):
     na = AssetName(n) if form[1] == "o" else n if form[1] == "b" else n.hex()
     got = encode_asset(pa, na)
     ctx.count("asset-form:" + form)
-    ctx.count(f"asset-name-len:{len(n)}")
+    ctx.count("asset-name-len:" + ("0" if not n else "32" if len(n) == 32 else "1..31"))
     if got != exp:
         try:
             hrp, data = bech32_ref.decode(got)
@@ -953,6 +957,11 @@ def check_gate_case(ctx, case):
     exp = gate_oracle(g)
     ctx.count("gate:" + g["shape"])
     ctx.count("gate-expected:" + exp[0] + (":" + exp[1][0] if exp[0] == "accept" else ":" + exp[1]))
+    if exp[0] == "accept" and exp[1][0] == "addr":
+        earlier = sum(1 for d in g["addr"][:exp[1][1]] if d is not None and truthy(d))
+        ctx.count(f"gate-address-match-after-{min(earlier, 3)}{'+' if earlier >= 3 else ''}-non-matching")
+        if len(exp[2]) > 1:
+            ctx.count("gate-address-several-matching")
     universe = [g["own"]] + list(g["addr"]) + ([g["offer"]["s"]] if g["offer"]["k"] != "none" else [])
     any_match = any(d is not None and ref_script_hash(d) == cred for d in universe)
     observed = None
@@ -1089,6 +1098,8 @@ def _c17_script_input(b, cx, o, run, idx):
 def _c17_aux(b, cx, o, run, idx):
     rng = random.Random(o["aseed"])
     b.auxiliary_data = gen_aux(rng, o["era"])
+    if o.get("peek"):
+        b.auxiliary_data.hash()      # the user looks at the hash before the metadata is final
 
 
 def _c17_aux_mutate(b, cx, o, run, idx):
@@ -1133,7 +1144,7 @@ def gen_build(rng):
         meta["aux"] = "alonzo-op"
     elif r < 0.85:
         era = rng.choice(ERAS)
-        ops.append({"op": "c17_aux", "era": era, "aseed": f"b{rng.randrange(10**9)}"})
+        ops.append({"op": "c17_aux", "era": era, "aseed": f"b{rng.randrange(10**9)}", "peek": rng.random() < 0.5})
         meta["aux"] = era
         if rng.random() < 0.4:
             ops.append({"op": "c17_aux_mutate", "label": rng.choice([1, 99, 674]), "value": rng.choice(["late", 5, "z" * 40])})
@@ -1277,7 +1288,22 @@ DETAIL_KEYS = ("datum_kind", "cbor", "aux_cbor", "tx_cbor", "size_cls", "size_co
 
 
 def dispatch(ctx, case):
-    CHECKS[case["kind"]](ctx, case)
+    try:
+        CHECKS[case["kind"]](ctx, case)
+    except Infra:
+        raise
+    except Exception as e:
+        # an exception that escapes from library code while an identifier is computed / serialized is a failure of the
+        # property on this input (e.g. a digest of the wrong length refused by its own hash class); an exception
+        # raised by the harness itself is an infrastructure error
+        tb = traceback.extract_tb(e.__traceback__)
+        repo = os.path.realpath(str(REPO)) + os.sep
+        if tb and os.path.realpath(tb[-1].filename).startswith(repo):
+            where = f"{os.path.relpath(os.path.realpath(tb[-1].filename), repo)}:{tb[-1].name}"
+            ctx.violation(f"computing / serializing an identifier of kind '{case['kind']}' raised {type(e).__name__} in {where}",
+                          case, "an identifier", type(e).__name__)
+        else:
+            raise
 
 
 def validate_oracle():
@@ -1347,13 +1373,13 @@ def run(ctx):
     for c in corpus(ctx):
         dispatch(ctx, c)
     q = ctx.budget
-    for i in range(q(350, 20000)):
+    for i in range(q(500, 20000)):
         d = gen_script(rng)
         dispatch(ctx, {"kind": "script", "script": d})
         if i % 2 == 0:
             label, v = rng.choice(variants(rng, d))
             dispatch(ctx, {"kind": "pair", "label": label, "a": d, "b": v})
-    for i in range(q(150, 8000)):
+    for i in range(q(200, 8000)):
         r = rng.random()
         if r < 0.3:
             dispatch(ctx, {"kind": "key", "cls": rng.choice(list(ORD_CLASSES)), "payload": rb(rng, 32).hex()})
@@ -1365,19 +1391,19 @@ def run(ctx):
             dispatch(ctx, {"kind": "key", "derive": "hd", "seed": rb(rng, 32).hex()})
         else:
             dispatch(ctx, {"kind": "key", "cls": rng.choice(list(ORD_CLASSES)), "payload": rb(rng, 64).hex()})
-    for i in range(q(300, 20000)):
+    for i in range(q(400, 20000)):
         dispatch(ctx, {"kind": "datum", "dseed": f"{ctx.seed}-d{i}"})
-    for i in range(q(240, 12000)):
+    for i in range(q(300, 12000)):
         dispatch(ctx, {"kind": "aux", "era": ERAS[i % 3], "aseed": f"{ctx.seed}-a{i}"})
-    for i in range(q(250, 12000)):
+    for i in range(q(450, 12000)):
         dispatch(ctx, {"kind": "tx", "tseed": f"{ctx.seed}-t{i}"})
     for i in range(q(200, 10000)):
         n = rng.choice([0, 1, 5, 31, 32]) if rng.random() < 0.5 else rng.randint(0, 32)
         dispatch(ctx, {"kind": "asset", "policy": rb(rng, 28).hex(), "name": rb(rng, n).hex(),
                        "form": rng.choice("obs") + rng.choice("obs")})
-    for i in range(q(700, 40000)):
+    for i in range(q(1500, 40000)):
         dispatch(ctx, gen_gate(rng))
-    for i in range(q(70, 3000)):
+    for i in range(q(150, 3000)):
         dispatch(ctx, gen_build(rng))
         if len(ctx.violations) > 20:
             break
